@@ -6,6 +6,12 @@ def indent(level):
 
 
 def ensure_select_keyword_order(select, operation):
+    from mindsdb_sql.parser.ast.select.union import CombiningQuery
+
+    if isinstance(select, CombiningQuery):
+        clause = 'FOR UPDATE' if operation == 'MODE' else operation
+        raise ParsingException(f"{clause} can not be applied to the result of {select.operation}")
+
     op_to_attr = {
         'FROM': select.from_table,
         'WHERE': select.where,
